@@ -12,6 +12,9 @@ pub struct ConditionEvaluatorBuilder {
     /// When known, the time-typed fields of the schema: only their string literals are read as
     /// instants. None keeps the schema-less behaviour (every time-looking string is an instant).
     temporal_fields: Option<std::collections::HashSet<String>>,
+    /// When known, the text-typed fields of the schema: a quoted literal compared with one of them
+    /// stays text even if it reads as a number. None keeps the schema-less behaviour.
+    text_fields: Option<std::collections::HashSet<String>>,
 }
 
 impl ConditionEvaluatorBuilder {
@@ -19,7 +22,14 @@ impl ConditionEvaluatorBuilder {
         Self {
             evaluator: ConditionEvaluator::new(),
             temporal_fields: None,
+            text_fields: None,
         }
+    }
+
+    /// Names the text-typed fields, whose quoted literals are never read as numbers.
+    pub fn with_text_fields(mut self, fields: Option<&std::collections::HashSet<String>>) -> Self {
+        self.text_fields = fields.cloned();
+        self
     }
 
     /// Restricts time-literal parsing to the given fields (plus the core `timestamp`).
@@ -35,7 +45,17 @@ impl ConditionEvaluatorBuilder {
         Self {
             evaluator: ConditionEvaluator::new(),
             temporal_fields: self.temporal_fields.clone(),
+            text_fields: self.text_fields.clone(),
         }
+    }
+
+    /// A quoted literal on a field the schema declares as text is compared as text.
+    fn literal_stays_text(&self, field: &str, literal: &ScalarValue) -> bool {
+        matches!(literal, ScalarValue::Utf8(_))
+            && self
+                .text_fields
+                .as_ref()
+                .is_some_and(|set| set.contains(field))
     }
 
     fn reads_time_literals(&self, field: &str) -> bool {
@@ -63,7 +83,10 @@ impl ConditionEvaluatorBuilder {
                 if let Some(parsed) = parsed_temporal {
                     self.evaluator
                         .add_numeric_condition(field.clone(), op.clone().into(), parsed);
-                } else if let Some(num_value) = scalar_value.as_i64() {
+                } else if let Some(num_value) = scalar_value
+                    .as_i64()
+                    .filter(|_| !self.literal_stays_text(field, &scalar_value))
+                {
                     info!(
                         target: "sneldb::evaluator",
                         "Adding numeric condition: {} {:?} {}",
@@ -110,7 +133,10 @@ impl ConditionEvaluatorBuilder {
 
                     if let Some(parsed) = parsed_temporal {
                         numeric_values.push(parsed);
-                    } else if let Some(num) = scalar_value.as_i64() {
+                    } else if let Some(num) = scalar_value
+                        .as_i64()
+                        .filter(|_| !self.literal_stays_text(field, &scalar_value))
+                    {
                         numeric_values.push(num);
                     } else {
                         all_numeric = false;
@@ -251,7 +277,9 @@ impl ConditionEvaluatorBuilder {
 
     pub fn build_from_plan(plan: &QueryPlan) -> ConditionEvaluator {
         let mut builder =
-            ConditionEvaluatorBuilder::new().with_temporal_fields(plan.temporal_fields());
+            ConditionEvaluatorBuilder::new()
+                .with_temporal_fields(plan.temporal_fields())
+                .with_text_fields(plan.text_fields());
 
         if let Some(where_clause) = plan.where_clause() {
             info!(target: "sneldb::evaluator", "Building from where clause");
